@@ -6,7 +6,7 @@ cd "$W" || exit 2
 git checkout -q -- . ; rm -f tests/demo_$ID.rs
 demo() {
   if [ -f "$S/demo.rs" ]; then cp "$S/demo.rs" tests/demo_$ID.rs; timeout 900 cargo test --offline --test demo_$ID >/tmp/seed/$ID.demo.log 2>&1; rc=$?; rm -f tests/demo_$ID.rs; return $rc
-  else timeout 900 cargo build --offline >/dev/null 2>&1; timeout 900 sh "$S/demo.sh" >/tmp/seed/$ID.demo.log 2>&1; return $?; fi
+  else timeout 900 cargo build --offline >/dev/null 2>&1; timeout 900 $(head -1 "$S/demo.sh" | grep -q bash && echo bash || echo sh) "$S/demo.sh" >/tmp/seed/$ID.demo.log 2>&1; return $?; fi
 }
 demo; A=$?
 git apply "$S/patch.diff" || { echo "$ID patch does not apply"; exit 1; }
